@@ -5,6 +5,7 @@ C01 helper lemmas, part 5: from lines to bytes and from `WF` to the per-record h
 * observations: `Obs.abs (observe r) = aobsRec r` for records with distinct keys
 -/
 import Proofs.Lemmas.C01Tokens
+import Model.Fmt.ReaderLimit
 
 namespace C01
 open Fmt Spec.RoundTrip
@@ -45,6 +46,42 @@ theorem splitLines_render : ∀ ls : List Bytes, (∀ l ∈ ls, Clean l) → spl
     have := ih (fun l' h' => h l' (List.mem_cons_of_mem _ h'))
     unfold splitLines at this ⊢
     rw [render_cons, splitLinesAux_line _ l [] hl.1, this]
+    simp [dropCR_clean hl.2]
+
+/-! ### the 64 KiB line limit of the reader (`bufio.MaxScanTokenSize`, C02's `ReaderLimit.lean`) -/
+
+theorem splitLinesLimAux_line (R : Bytes) : ∀ (l cur : Bytes), Bytes.hasByte l 10 = false →
+    cur.length + l.length < maxToken →
+    splitLinesLimAux cur (l ++ 10 :: R) =
+      (dropCR (cur.reverse ++ l) :: (splitLinesLimAux [] R).1, (splitLinesLimAux [] R).2) := by
+  intro l
+  induction l with
+  | nil =>
+    intro cur _ hlen
+    have : ¬ maxToken ≤ cur.length := by simp at hlen; omega
+    simp [splitLinesLimAux, this]
+  | cons c l ih =>
+    intro cur h hlen
+    simp only [Bytes.hasByte, List.any_cons, Bool.or_eq_false_iff] at h
+    have hc : (c == 10) = false := h.1
+    have := ih (c :: cur) (by simpa [Bytes.hasByte] using h.2)
+      (by simp only [List.length_cons] at hlen ⊢; omega)
+    simp only [List.cons_append, splitLinesLimAux, hc, Bool.false_eq_true, ↓reduceIte, this]
+    simp
+
+/-- lines that are clean and shorter than 64 KiB come back from the limited scanner, which does
+not stop with `ErrTooLong` -/
+theorem splitLinesLim_render : ∀ ls : List Bytes, (∀ l ∈ ls, Clean l) → (∀ l ∈ ls, l.length < maxToken) →
+    splitLinesLim (render ls) = (ls, false) := by
+  intro ls
+  induction ls with
+  | nil => intro _ _; simp [render, splitLinesLim, splitLinesLimAux]
+  | cons l ls ih =>
+    intro h hlen
+    have hl := h l List.mem_cons_self
+    have := ih (fun l' h' => h l' (List.mem_cons_of_mem _ h')) (fun l' h' => hlen l' (List.mem_cons_of_mem _ h'))
+    unfold splitLinesLim at this ⊢
+    rw [render_cons, splitLinesLimAux_line _ l [] hl.1 (by simpa using hlen l List.mem_cons_self), this]
     simp [dropCR_clean hl.2]
 
 /-! ### observations -/
